@@ -426,3 +426,193 @@ Lemma fqn_resolve_r_genuine conf redir (rf : nat) (m : list obj) (r : nat) (text
   fqn_resolve_r conf redir rf m r text T = XFound t ->
   exists i s, scope_at m r i s /\ chain_r redir r m s (split_dots text) t /\ conforms conf m t T = true.
 Proof. unfold fqn_resolve_r. apply find_referenced_r_sound. Qed.
+
+(* ------------------------------------------------------------------ redirection: exactness for flat callbacks *)
+Lemma own_none (m : list obj) (p : nat) (nm : list N) :
+  own src_walked m p nm = FNone -> forall c, contains_w m p c -> name_of m c = Some nm -> False.
+Proof.
+  unfold own. destruct (find_obj src_walked m p nm) as [c0|] eqn:F; [discriminate|]. intros _ c Hc Hn.
+  destruct Hc as (o & a & G & Hin & Hw & Hv). unfold find_obj in F. rewrite G in F.
+  destruct (attr_find_complete m nm a c Hv Hn) as [c' Hf].
+  assert (In a (filter src_walked (o_attrs o))) as Hin' by (apply filter_In; split; assumption).
+  destruct (first_some_ex (attr_find m nm) _ a c' Hin' Hf) as [y Hy]. rewrite Hy in F. discriminate.
+Qed.
+
+Lemma own_cases (m : list obj) (p : nat) (nm : list N) :
+  own src_walked m p nm = FNone \/ exists c, own src_walked m p nm = FObj c.
+Proof. unfold own. destruct (find_obj src_walked m p nm) as [c|]; [right; exists c; reflexivity | left; reflexivity]. Qed.
+
+Lemma first_fo_ext (f g : nat -> fo) (l : list nat) : (forall x, In x l -> f x = g x) -> first_fo f l = first_fo g l.
+Proof.
+  induction l as [|x l IH]; intro H; cbn [first_fo]; [reflexivity|].
+  rewrite (H x (or_introl eq_refl)), IH; [reflexivity|]. intros y Hy. apply H. right. exact Hy.
+Qed.
+
+Lemma first_fo_none (f : nat -> fo) (l : list nat) : first_fo f l = FNone -> forall x, In x l -> f x = FNone.
+Proof.
+  induction l as [|x l IH]; cbn [first_fo]; [intros _ y []|].
+  destruct (f x) eqn:E; try discriminate. intros H y [Hy|Hy]; [subst y; exact E | exact (IH H y Hy)].
+Qed.
+
+Lemma first_fo_own_cases (m : list obj) (nm : list N) (l : list nat) :
+  first_fo (fun x => own src_walked m x nm) l = FNone \/ exists c, first_fo (fun x => own src_walked m x nm) l = FObj c.
+Proof.
+  induction l as [|x l IH]; cbn [first_fo]; [left; reflexivity|].
+  destruct (own_cases m x nm) as [E|[c E]]; rewrite E; [exact IH | right; exists c; reflexivity].
+Qed.
+
+Section RedirectExact.
+  Variable conf : nat -> nat -> bool.
+  Variable redir : nat -> rres.
+  Variable cur : nat.
+  Variable m : list obj.
+  Hypothesis Hlist : forall p, exists l, redir p = RList l.
+  Hypothesis Hflat : forall p l x, redir p = RList l -> In x l -> redir x = RList [].
+
+  Lemma find_obj_r_flat (f x : nat) (nm : list N) : redir x = RList [] ->
+    find_obj_r src_walked redir cur (S f) m x nm = own src_walked m x nm.
+  Proof. intro H. cbn [find_obj_r]. destruct (Nat.eqb x cur); [reflexivity|]. rewrite H. reflexivity. Qed.
+
+  Lemma find_obj_r_two (f p : nat) (nm : list N) :
+    find_obj_r src_walked redir cur (S (S f)) m p nm =
+    if Nat.eqb p cur then own src_walked m p nm
+    else match redir p with
+         | RPost => FPost
+         | RList l => match first_fo (fun x => own src_walked m x nm) l with FNone => own src_walked m p nm | r => r end
+         end.
+  Proof.
+    cbn [find_obj_r]. destruct (Nat.eqb p cur); [reflexivity|]. destruct (redir p) as [l|] eqn:E; [|reflexivity].
+    rewrite (first_fo_ext _ (fun x => own src_walked m x nm) l); [reflexivity|].
+    intros x Hx. change (find_obj_r src_walked redir cur (S f) m x nm = own src_walked m x nm).
+    apply find_obj_r_flat. exact (Hflat p l x E Hx).
+  Qed.
+
+  Lemma find_obj_r_cases (f p : nat) (nm : list N) :
+    find_obj_r src_walked redir cur (S (S f)) m p nm = FNone \/
+    exists c, find_obj_r src_walked redir cur (S (S f)) m p nm = FObj c.
+  Proof.
+    rewrite find_obj_r_two. destruct (Nat.eqb p cur); [apply own_cases|].
+    destruct (Hlist p) as [l E]. rewrite E.
+    destruct (first_fo_own_cases m nm l) as [E1|[c E1]]; rewrite E1; [apply own_cases | right; exists c; reflexivity].
+  Qed.
+
+  Lemma reach_flat (x c : nat) : redir x = RList [] -> reach redir cur m x c -> contains_w m x c.
+  Proof. intros H R. inversion R as [o c0 Hc | o l y c0 He Hr Hin Hry]; subst; [exact Hc|]. rewrite H in Hr. inversion Hr; subst l. destruct Hin. Qed.
+
+  Section AtName.
+    Variable nm : list N.
+    Hypothesis Hu : forall o c1 c2, reach redir cur m o c1 -> reach redir cur m o c2 ->
+                                    name_of m c1 = Some nm -> name_of m c2 = Some nm -> c1 = c2.
+
+    Lemma own_complete_r (p c : nat) : contains_w m p c -> name_of m c = Some nm -> own src_walked m p nm = FObj c.
+    Proof.
+      intros Hc Hn. unfold own. rewrite (find_obj_complete_w m p nm c Hc Hn); [reflexivity|].
+      intros c1 c2 H1 H2 N1 N2. exact (Hu p c1 c2 (reach_own redir cur m p c1 H1) (reach_own redir cur m p c2 H2) N1 N2).
+    Qed.
+
+    Lemma find_obj_r_complete (f p c : nat) :
+      reach redir cur m p c -> name_of m c = Some nm -> find_obj_r src_walked redir cur (S (S f)) m p nm = FObj c.
+    Proof.
+      intros R Hn. rewrite find_obj_r_two. destruct (Nat.eqb p cur) eqn:Ecur.
+      - inversion R as [o c0 Hc | o l y c0 He Hr Hin Hry]; subst; [apply own_complete_r; assumption|].
+        rewrite Ecur in He. discriminate.
+      - destruct (Hlist p) as [l E]. rewrite E.
+        destruct (first_fo_own_cases m nm l) as [E1|[c' E1]]; rewrite E1.
+        + inversion R as [o c0 Hc | o l' y c0 He Hr Hin Hry]; subst; [apply own_complete_r; assumption|].
+          exfalso. rewrite E in Hr. inversion Hr; subst l'.
+          pose proof (first_fo_none _ l E1 y Hin) as Hy. cbn beta in Hy.
+          apply (own_none m y nm Hy c); [|exact Hn]. apply reach_flat; [exact (Hflat p l y E Hin) | exact Hry].
+        + f_equal. apply first_fo_obj in E1 as [x [Hx Hox]]. destruct (own_sound m x nm c' Hox) as [Hc' Hn'].
+          apply (Hu p); [eapply reach_red; [exact Ecur | exact E | exact Hx | apply reach_own; exact Hc'] | exact R | exact Hn' | exact Hn].
+    Qed.
+  End AtName.
+
+  Variable T : nat.
+  Local Notation good_r := (Model.FqnExt.good_r conf redir cur m T).
+  Local Notation unique_on_r := (Model.FqnExt.unique_on_r redir cur m).
+
+  Lemma find_path_r_complete (f : nat) : forall p parts t, chain_r redir cur m p parts t -> unique_on_r parts ->
+    find_path_r src_walked redir cur (S (S f)) m p parts = FObj t.
+  Proof.
+    intros p parts t Hch. induction Hch as [o | o c nm rest t Hc Hn Hch IH]; intro Hu; cbn [find_path_r]; [reflexivity|].
+    rewrite (find_obj_r_complete nm (fun o' c1 c2 => Hu o' c1 c2 nm (or_introl eq_refl)) f o c Hc Hn).
+    apply IH. intros o' c1 c2 n Hin. apply Hu. right. exact Hin.
+  Qed.
+
+  Lemma find_path_r_cases (f : nat) : forall parts p,
+    find_path_r src_walked redir cur (S (S f)) m p parts = FNone \/
+    exists t, find_path_r src_walked redir cur (S (S f)) m p parts = FObj t.
+  Proof.
+    induction parts as [|nm rest IH]; intro p; cbn [find_path_r]; [right; exists p; reflexivity|].
+    destruct (find_obj_r_cases f p nm) as [E|[c E]]; rewrite E; [left; reflexivity | apply IH].
+  Qed.
+
+  Variable parts : list (list N).
+  Hypothesis Hu : unique_on_r parts.
+  Hypothesis Hpar : parents_decrease m = true.
+
+  Definition F_r (f : nat) (s : nat) : option nat :=
+    match find_obj_fqn_r src_walked conf redir cur (S (S f)) m s parts T with FObj t => Some t | _ => None end.
+
+  Lemma F_r_sound (f s t : nat) : F_r f s = Some t -> good_r parts s t.
+  Proof.
+    unfold F_r, find_obj_fqn_r, Model.FqnExt.good_r.
+    destruct (find_path_r src_walked redir cur (S (S f)) m s parts) as [|t0| |] eqn:E; try discriminate.
+    destruct (conforms conf m t0 T) eqn:C; [|discriminate]. intro H; inversion H; subst t0.
+    split; [apply (find_path_r_sound redir cur (S (S f))); exact E | exact C].
+  Qed.
+
+  Lemma F_r_complete (f s t : nat) : good_r parts s t -> F_r f s = Some t.
+  Proof.
+    intros [Hch C]. unfold F_r, find_obj_fqn_r. rewrite (find_path_r_complete f s parts t Hch Hu), C. reflexivity.
+  Qed.
+
+  Lemma find_referenced_r_outward (f : nat) : forall fuel p,
+    find_referenced_r src_walked conf redir cur fuel (S (S f)) m p parts T = lift_result (outward m (F_r f) fuel p).
+  Proof.
+    induction fuel as [|fu IH]; intro p; rewrite find_referenced_r_eq, outward_eq; unfold F_r, find_obj_fqn_r;
+      destruct (find_path_r_cases f parts p) as [E|[t E]]; rewrite E; try (destruct (conforms conf m t T));
+      try reflexivity; destruct (parent_of m p); try reflexivity; apply IH.
+  Qed.
+End RedirectExact.
+
+Lemma fqn_resolve_r_exact conf redir (f : nat) (m : list obj) (r : nat) (text : list N) (T : nat) :
+  parents_decrease m = true -> r < length m ->
+  (forall p, exists l, redir p = RList l) -> (forall p l x, redir p = RList l -> In x l -> redir x = RList []) ->
+  unique_on_r redir r m (split_dots text) ->
+  (forall t, fqn_resolve_r conf redir (S (S f)) m r text T = XFound t <->
+             resolves_g m (good_r conf redir r m T (split_dots text)) r t) /\
+  (fqn_resolve_r conf redir (S (S f)) m r text T = XUnknown <->
+   unresolvable_g m (good_r conf redir r m T (split_dots text)) r) /\
+  fqn_resolve_r conf redir (S (S f)) m r text T <> XOutOfFuel /\
+  fqn_resolve_r conf redir (S (S f)) m r text T <> XPostponed.
+Proof.
+  intros Hp Hr Hlist Hflat Hu. unfold fqn_resolve_r.
+  rewrite (find_referenced_r_outward conf redir r m Hlist Hflat T (split_dots text) f).
+  pose proof (fun p q => parents_decrease_spec m p q Hp) as Hpar.
+  pose proof (outward_found m (F_r conf redir r m T (split_dots text) f) (good_r conf redir r m T (split_dots text)) Hpar
+                (F_r_sound conf redir r m T (split_dots text) f)
+                (F_r_complete conf redir r m Hlist Hflat T (split_dots text) Hu f) r (length m) (Nat.lt_le_incl _ _ Hr)) as Hf.
+  pose proof (outward_unknown m (F_r conf redir r m T (split_dots text) f) (good_r conf redir r m T (split_dots text)) Hpar
+                (F_r_sound conf redir r m T (split_dots text) f)
+                (F_r_complete conf redir r m Hlist Hflat T (split_dots text) Hu f) r (length m) (Nat.lt_le_incl _ _ Hr)) as Hk.
+  pose proof (outward_total m (F_r conf redir r m T (split_dots text) f) Hpar r (length m) (Nat.lt_le_incl _ _ Hr)) as Ht.
+  destruct (outward m (F_r conf redir r m T (split_dots text) f) (length m) r) as [t0| |] eqn:E; cbn [lift_result].
+  - split; [intro t; rewrite <- Hf; split; intro H; inversion H; reflexivity|].
+    split; [rewrite <- Hk; split; discriminate|]. split; discriminate.
+  - split; [intro t; rewrite <- Hf; split; discriminate|].
+    split; [rewrite <- Hk; split; reflexivity|]. split; discriminate.
+  - exfalso. apply Ht. reflexivity.
+Qed.
+
+From TxV Require Import Model.FqnWitness.
+Lemma w_redir_flat :
+  parents_decrease w3 = true /\ (forall p, exists l, w_redir p = RList l) /\
+  (forall p l x, w_redir p = RList l -> In x l -> w_redir x = RList []).
+Proof.
+  split; [vm_compute; reflexivity|]. split.
+  - intro p. unfold w_redir. destruct (Nat.eqb p 2); eexists; reflexivity.
+  - intros p l x H Hin. unfold w_redir in H. destruct (Nat.eqb p 2).
+    + inversion H; subst l. destruct Hin as [Hx|[]]. subst x. reflexivity.
+    + inversion H; subst l. destruct Hin.
+Qed.
